@@ -153,6 +153,12 @@ Theorem C14_macro_equals_parse :
       parse fparse (render F fdisplay t) = json_macro F false [t].
 Proof. exact macro_equals_parse. Qed.
 
+(* for EVERY token sequence (inside or outside the grammar; repaired or old macro) the model answers with a value or a compile
+   error: the fuel of the rewriting function (json_fuel = 1 + size of the token trees) is never exhausted *)
+Theorem C14_json_macro_total :
+  forall (F : Type) (old : bool) (ts : list (tt F)), json_macro F old ts <> Err E_FUEL.
+Proof. exact json_macro_total. Qed.
+
 (* the literals that #[derive(IntoJson)] and json_map! write for a named struct evaluate to the object of C14_shape_struct:
    the typed mapping of structs goes through the macro, and the macro does not lose members *)
 Theorem C14_derive_literal :
@@ -273,6 +279,7 @@ Print Assumptions C14_denote_iff_lit.
 Print Assumptions C14_macro_denote.
 Print Assumptions C14_literal_text_valid.
 Print Assumptions C14_macro_equals_parse.
+Print Assumptions C14_json_macro_total.
 Print Assumptions C14_derive_literal.
 Print Assumptions C14_json_map_literal.
 Print Assumptions C14_macro_old_refuted.
